@@ -102,9 +102,14 @@ def needs_quoting(string: str, allow_reserved: bool, allow_num: bool) -> bool:
 
     string = string.lower()
 
+    # Partially reserved keywords (UNION, EXCEPT, INTERSECT) are accepted
+    # bare in the same places as reserved ones and nowhere else.
     is_reserved = (
         string not in {'__type__', '__std__'}
-        and string in keywords.by_type[keywords.RESERVED_KEYWORD]
+        and (
+            string in keywords.by_type[keywords.RESERVED_KEYWORD]
+            or string in keywords.by_type[keywords.PARTIAL_RESERVED_KEYWORD]
+        )
     )
 
     return (
